@@ -329,7 +329,7 @@ def run_c18_flavour(rep, tier, seed, flavour):
         k += 1
     rep.counters['traces_validated_against_impl'] += k
     if bad: rep.inconc('differential validation mismatch (actix-tls acceptor): %r' % (bad[0],)); return
-    steps, calls = (8, 3) if tier == "quick" else (10, 4)
+    steps, calls = (8, 3) if tier == "quick" else (9, 3)
     t0 = time.time()
     acc = explore_levels(ctx.mk, make_body(ctx, steps, calls), steps + 1, seed=seed)
     rep.bounds[flavour] = dict({'operations': steps, 'concurrent_calls': calls, 'limit': 'symbolic 1..65536', 'handshake_timeout_ms': 'symbolic 100..5000', 'clock_increment_ms': 'symbolic 0..6000 per tick',
